@@ -112,7 +112,22 @@ def decide(res, pr, tr, exe, es, alld, bad_e, bad_d, rt_fail, enc_fail):
                       True, "%s bytes %s decode to %s in the implementation, to %s by the grammar (dialect %s)" %
                       (d.kind, d.hex[:160], (d.cls + " " + d.value)[:300], str(model)[:300], d.d))
         return
-    # 3. only an obligation broke: name it; try a directed search on the values the failing table row talks about
+    # 3. only an obligation broke: the regenerated model still agrees with the code, so the code has moved away from the
+    #    specifications in a self-consistent way. Search for a concrete value / byte string on which it deviates from
+    #    the grammar (the model instantiated with the protocol XML and Codec/Grammar.v instead of the regenerated tables).
+    if bad_e is not None:
+        try:
+            pe = [e for e in es if e.producible]
+            ge, gd, _, _ = cc.eval_cases(pe, [], "C12g", grammar=True)
+            if ge:
+                e = min((pe[i] for i in ge), key=lambda x: len(x.raw))
+                res.violation(dict(kind="encoding-differs-from-grammar", case_kind=e.kind, dialect=e.d, value=e.value, go_encoding=e.enc,
+                                   grammar_encoding=cc.model_encode_text(e, grammar=True), broken=what, failing_cases=len(ge),
+                                   replay_cmd=replay_cmd % e.idx),
+                              True, "%s encoding differs from the grammar in dialect %s: value %s: implementation %s" % (e.kind, e.d, e.value[:300], e.enc[:160]))
+                return
+        except vlib.Infra as x:
+            what.append("grammar search failed: %s" % str(x)[:300])
     res.violation(dict(kind="obligation", broken=what, translator={g: tr["files"].get(g) for g in GEN}), False, "; ".join(what))
 
 
@@ -129,7 +144,7 @@ def replay(path):
         print("implementation: ", e.enc[:2000])
         print("decoded again:  ", e.godec[:2000])
         if r["kind"] == "encoding-differs-from-grammar":
-            g = cc.model_encode_text(e)
+            g = cc.model_encode_text(e, grammar=True)
             print("grammar:        ", g)
             return 0 if g == e.go_bytes() or not e.exact else 1
         return 0 if e.roundtrip_ok() in (True, None) and not (e.producible and e.go_bytes() is None) else 1
